@@ -500,6 +500,9 @@ func runGovc(opt Options) (*Report, error) {
 		case o.Res.Result == "sat":
 			or.Result = "refuted"
 			or.Model = o.Res.Model
+		case o.Res.Result == "solver-error":
+			or.Result = "solver-error"
+			or.Output = o.Res.Output
 		default:
 			or.Result = "undischarged"
 			or.Output = o.Res.Output
